@@ -195,12 +195,14 @@ def check(pid, tier, seed):
     batches.append(("pool", s3, c3))
     s4, c4 = concrouter.programs(seed, n)
     batches.append(("router", s4, c4))
+    s5, c5 = concrouter.oneshot_programs(seed, max(100, n // 4))
+    batches.append(("router:one-shot observer", s5, c5))
     total = 0
     races = {}
     accesses_seen = 0
     per_component = {}
     for comp, script, cfgs in batches:
-        res = common.run_harness(exes[comp], script)
+        res = common.run_harness(exes[comp.split(":")[0]], script)
         total += len(cfgs)
         pcs = set()
         found = []
@@ -214,7 +216,7 @@ def check(pid, tier, seed):
                     found.append((x, r))
                 elif r.get("e") == "Crash" and "Assertion" not in r.get("stderr", ""):
                     pass
-        sym = symbolize(exes[comp], sorted(pcs))
+        sym = symbolize(exes[comp.split(":")[0]], sorted(pcs))
         per_component[comp] = per_component.get(comp, 0) + len(cfgs)
         for x, r in found:
             f1, f2 = sym.get(r["pc1"], []), sym.get(r["pc2"], [])
@@ -227,11 +229,16 @@ def check(pid, tier, seed):
                 n1 = site(f1) if in_tulz(f1) else "%s via %s" % (caller_site(f1, st1), site(f1))
                 n2 = site(f2) if in_tulz(f2) else "%s via %s" % (caller_site(f2, st2), site(f2))
                 key = tuple(sorted([n1 + (" [write]" if r["w1"] else " [read]"), n2 + (" [write]" if r["w2"] else " [read]")]))
+                if ":" in comp:   # a batch with its own label: its pairs are reported (and matched against known findings) under that label
+                    key = (comp.split(":")[1],) + key
                 if key not in races:
                     races[key] = {"component": comp, "cfg": cfgs.get(x), "id": x, "threads": [r["t1"], r["t2"]], "count": 0}
                 races[key]["count"] += 1
     for key, info in races.items():
-        verdict.violation("race: %s <-> %s" % key, {"occurrences": info["count"], "threads": info["threads"]},
+        label = ""
+        if len(key) == 3:
+            label, key = "[%s]" % key[0], key[1:]
+        verdict.violation("race%s: %s <-> %s" % ((label,) + key), {"occurrences": info["count"], "threads": info["threads"]},
                           {"component": info["component"], "xid": info["id"], "cfg": info["cfg"], "sites": list(key)})
     log("[%s] %d controlled executions with access instrumentation, %d distinct tulz race pairs" % (pid, total, len(races)))
     cov = {"states": sum(m["distinct_states"] for m in mcs), "transitions": sum(m["states_generated"] for m in mcs),
